@@ -697,17 +697,20 @@ class Script(object):
             raise ValueError(st.fn)
         self.lines.append(head + " " + tail)
 
-    def apply(self, sc, name, form, mats, amats):
+    def apply(self, sc, name, form, mats, amats, ref=None):
+        """ref: apply through a calibration index ('rK' = value returned by the K-th addcal of the script)
+        instead of the index vnacal_find_calibration gives for the name"""
         F = sc.F
         n = len(mats[0])
+        cmd = "apply %s" % name if ref is None else "applyi %s" % ref
         if form == "ab":
             bs = [ab_of(sc.typ, mats[f], amats[f]) for f in range(F)]
-            self.lines.append("apply %s ab %d %s %d %d %d %d %s %s" % (
-                name, F, " ".join(hx(f) for f in sc.freqs), len(amats[0]), n, n, n,
+            self.lines.append("%s ab %d %s %d %d %d %d %s %s" % (
+                cmd, F, " ".join(hx(f) for f in sc.freqs), len(amats[0]), n, n, n,
                 self.cells(amats), self.cells(bs, True)))
         else:
-            self.lines.append("apply %s m %d %s 0 0 %d %d %s" % (
-                name, F, " ".join(hx(f) for f in sc.freqs), n, n, self.cells(mats, True)))
+            self.lines.append("%s m %d %s 0 0 %d %d %s" % (
+                cmd, F, " ".join(hx(f) for f in sc.freqs), n, n, self.cells(mats, True)))
 
     def text(self):
         if self.pool is None:
@@ -804,7 +807,7 @@ def parse_output(out):
         kv = dict(x.split("=", 1) for x in p[1:] if "=" in x)
         rec = {"line": ln}
         rec.update(kv)
-        if kind == "apply" and kv.get("rc") == "0":
+        if kind in ("apply", "applyi") and kv.get("rc") == "0":
             F = int(kv["F"])
             rec["S"] = []
             for _ in range(F):
@@ -937,6 +940,166 @@ def outputs_differ(recs1, recs2, tol=1e-9):
             elif (key in r1) != (key in r2):
                 return float("inf")
     return worst
+
+
+# ----------------------------------------------------------------------------- calibration-table histories
+class History(object):
+    """A history of the calibration table of one vnacal_t: calibrations are solved and stored with
+    vnacal_add_calibration under names, some are deleted (vnacal_delete_calibration leaves a hole in the table),
+    some setups are calibrated again with ANOTHER error network and stored under the same name (documented:
+    the calibration of that name is replaced) or under a new name.  At the end every live name is applied
+    through every index the application was given for it since it was last absent (the first add and every
+    replacement): each must correct measurements taken with the CURRENT network of that name."""
+    def __init__(self):
+        self.ops = []          # ("add", name, scenario, k) | ("del", name, ref)
+        self.final = []        # (name, scenario, ref)
+        self.noise = None
+
+
+def gen_history(rng):
+    h = History()
+    pool = ["a", "b", "c", "d", "e", "f", "g", "h"]
+    live = {}                  # name -> (scenario, [refs])
+    nadd = [0]
+
+    def scen(like=None):
+        if like is None:
+            typ = rng.choice(TYPES)
+            n = rng.randint(1, 2)
+            F = rng.randint(1, 2)
+        else:
+            typ, n, F = like.typ, like.r, like.F
+        return gen_scenario(rng, typ, n, n, F, form=rng.choice(["m", "ab", "mixed"]), extras=False)
+
+    def add(name, like=None):
+        sc = scen(like)
+        sc.name = name
+        k = nadd[0]
+        nadd[0] += 1
+        refs = (live[name][1] if name in live else []) + ["r%d" % k]
+        live[name] = (sc, refs)
+        h.ops.append(("add", name, sc, k))
+
+    dead = []
+
+    def delete(name):
+        sc, refs = live.pop(name)
+        dead.append((name, sc))
+        h.ops.append(("del", name, rng.choice(refs)))
+
+    def add_absent():
+        # a name that is not in the table: one that was deleted earlier, or a new one
+        nonlocal_nxt = nxt[0]
+        gone = [(nm, sc) for nm, sc in dead if nm not in live]
+        if gone and (rng.random() < 0.5 or nonlocal_nxt >= len(pool)):
+            nm, sc = rng.choice(gone)
+            add(nm, like=sc if rng.random() < 0.7 else None)
+        elif nonlocal_nxt < len(pool):
+            add(pool[nonlocal_nxt], like=live[rng.choice(sorted(live))][0] if rng.random() < 0.5 else None)
+            nxt[0] += 1
+    n0 = rng.randint(2, 4)
+    for i in range(n0):
+        add(pool[i])
+    nxt = [n0]
+    for step in range(rng.randint(1, 4)):
+        x = rng.random()
+        names = sorted(live)
+        if x < 0.5 and len(names) >= 2:
+            delete(rng.choice(names))
+        elif x < 0.85:
+            nm = rng.choice(names)
+            add(nm, like=live[nm][0])                 # the same setup calibrated again, another error network
+        else:
+            add_absent()
+    # the history ends with a calibration being stored: again under a live name, or under an absent one
+    if rng.random() < 0.75:
+        nm = rng.choice(sorted(live))
+        add(nm, like=live[nm][0])
+    else:
+        add_absent()
+    for nm in sorted(live):
+        sc, refs = live[nm]
+        for ref in refs:
+            h.final.append((nm, sc, ref))
+    return h
+
+
+def history_script(h, noise=None):
+    s = Script(noise)
+    for op in h.ops:
+        if op[0] == "add":
+            _, name, sc, k = op
+            s.new(k, sc)
+            for st in sc.stds:
+                s.add(k, sc, st)
+            s.lines.append("solve %d" % k)
+            s.lines.append("addcal %d %s" % (k, name))
+        else:
+            s.lines.append("delcal %s" % op[2])
+    for name, sc, ref in h.final:
+        mats = [dut_measurement(sc, f) for f in range(sc.F)]
+        s.apply(sc, name, sc.apply_form, mats, sc.apply_A, ref=ref)
+    for op in h.ops:
+        if op[0] == "add":
+            s.lines.append("free %d" % op[3])
+    return s
+
+
+def describe_history(h):
+    out = []
+    for op in h.ops:
+        if op[0] == "add":
+            out.append("r%d = add %s (%s %dx%d F=%d)" % (op[3], op[1], op[2].typ, op[2].r, op[2].c, op[2].F))
+        else:
+            out.append("delete %s (index %s)" % (op[1], op[2]))
+    out += ["apply %s through index %s" % (nm, ref) for nm, sc, ref in h.final]
+    return out
+
+
+def judge_history(h, recs):
+    """problems [(class, detail)], worst relative error of the applied S"""
+    problems = []
+    for kind in ("new", "add", "solve", "delcal"):
+        for x in [x for k, x in recs if k == kind]:
+            if x.get("rc") != "0":
+                problems.append((kind + "-failed", x["line"]))
+    adds = [x for k, x in recs if k == "addcal"]
+    nadd = len([op for op in h.ops if op[0] == "add"])
+    if len(adds) != nadd or any(int(x.get("rc", "-1")) < 0 for x in adds):
+        problems.append(("addcal-failed", "%d of %d: %s" % (len(adds), nadd, [x["line"] for x in adds])))
+    if problems:
+        return problems, 0.0
+    ap = [x for k, x in recs if k == "applyi"]
+    if len(ap) != len(h.final):
+        return [("harness", "expected %d apply results, got %d" % (len(h.final), len(ap)))], 0.0
+    worst = 0.0
+    index_of = {"r%d" % k: x.get("rc") for k, x in enumerate(adds)}
+    for (name, sc, ref), a in zip(h.final, ap):
+        what = "calibration '%s' applied through index %s (= %s, returned by addcal #%s; latest index of that name %s)" % (
+            name, ref, index_of.get(ref), ref[1:], a_latest(h, name, index_of))
+        if "S" not in a:
+            problems.append(("apply-failed", "%s: %s" % (what, a["line"])))
+            continue
+        w = 0.0
+        for f in range(sc.F):
+            flat = [x for row in sc.dut[f] for x in row]
+            got = a["S"][f]
+            if len(got) != len(flat):
+                w = float("inf")
+                break
+            d = max(abs(u - v) for u, v in zip(flat, got)) / max(1.0, max(abs(x) for x in flat))
+            if not d <= w:
+                w = d
+        worst = max(worst, w)
+        if not w <= TOL:
+            problems.append(("apply-mismatch", "%s does not return the DUT's S for measurements taken with the network it was "
+                             "last calibrated with: relative error %.3g" % (what, w)))
+    return problems, worst
+
+
+def a_latest(h, name, index_of):
+    ks = [op[3] for op in h.ops if op[0] == "add" and op[1] == name]
+    return index_of.get("r%d" % ks[-1]) if ks else None
 
 
 # ----------------------------------------------------------------------------- structural correspondence
